@@ -120,6 +120,7 @@ static inline bool rr_ins_all(rr_cache o, const rr_cache *n, uint64_t k, uint64_
 static inline bool rr_has_o(rr_cache o, uint64_t k) { return rr_has(&o, k); }
 static inline uint64_t rr_val_o(rr_cache o, uint64_t k) { return rr_val(&o, k); }
 static inline uint64_t rr_size_o(rr_cache o) { return rr_size(&o); }
+static inline uint64_t rr_cap_o(rr_cache o) { return rr_cap(&o); }
 static inline uint64_t rr_key_of_slot_o(rr_cache o, uint64_t idx) { return rr_key_of_slot(&o, idx); }
 static inline uint64_t rr_entry_key_o(rr_cache o, cstl_iter kp) { return rr_entry_key(&o, kp); }
 #endif
